@@ -54,6 +54,12 @@ func (s *expStepStructure) commitmentsFromSecrets(g zkproof.Group, list []*big.I
 		// fake b
 		commit.bchallenge = common.FastRandomBigInt(new(big.Int).Lsh(big.NewInt(1), 256))
 		commit.bproof = s.stepb.fakeProof(g)
+		// Like the real proof of this branch, the simulated one carries a copy of the surrounding
+		// commitment to the multiplier. (A random element here would tell the two apart, and with
+		// them the bits of the secret exponent.)
+		if mul := bases.Base(s.stepb.mulname); mul != nil {
+			commit.bproof.Mul.Commit = new(big.Int).Set(mul)
+		}
 		list = s.stepb.commitmentsFromProof(g, list, commit.bchallenge, bases, commit.bproof)
 	} else {
 		commit.isTypeA = false
